@@ -711,3 +711,12 @@ func (k *Kernel) Put(key RuleKey, attrs []Attr) {
 	k.Rules[key] = attrs
 	k.mu.Unlock()
 }
+
+// ScanLog lets the caller inspect (and mark) recorded requests under the lock.
+func (k *Kernel) ScanLog(f func(r *Request)) {
+	k.mu.Lock()
+	defer k.mu.Unlock()
+	for i := range k.Log {
+		f(&k.Log[i])
+	}
+}
